@@ -40,7 +40,7 @@ func (check) Cases(tier string) int {
 }
 
 func (check) Rule() string {
-	return "each case builds one shared config rich in dynamic values (references, splices, resolver-provided text that parses into objects and lists, nil values, settings captured as *Config) and lets 2-32 goroutines perform a shuffled mix of reads on it at the same time (Unpack into interface{}/typed struct/*Config capture, String/Int/Bool getters, Child, Has, CountField, GetFields, Path, FlattenedKeys, using it and a captured sub-config as merge source, directly and through cfgutil.Collector.Add followed by another Add), 10 rounds per config, preceded by 3 cold rounds in which the goroutines are the first readers of a freshly built identical config (lazily initialised state is initialised under concurrency); the worker is built with the Go race detector (reports counted from the race log per case); at the yield hook inside dynamic value evaluation a PRNG-chosen goroutine yields or sleeps 0-50us; every result is compared with the sequential baseline taken before the goroutines start; the non-evaluating fingerprint of the shared config is compared before/after every round. Distinct interleavings are counted from the merged stream of goroutine ids at the hook. Non-trivial = a round in which at least two goroutines overlapped at the hook (interleaving differs from serial order); distinct = distinct (config, round interleaving)."
+	return "each case builds one shared config rich in dynamic values (references, splices, resolver-provided text that parses into objects and lists, nil values, settings captured as *Config) and lets 2-32 goroutines perform a shuffled mix of reads on it at the same time (Unpack into interface{}/typed struct/*Config capture, String/Int/Bool getters, Child, Has, CountField, GetFields, Path, FlattenedKeys, using it and a captured sub-config as merge source, directly and through cfgutil.Collector.Add followed by another Add), 10 rounds per config, preceded by 3 cold rounds in which the goroutines are the first readers of a freshly built identical config (lazily initialised state is initialised under concurrency); the worker is built with the Go race detector (reports counted from the race log per case); at the yield hook inside dynamic value evaluation a PRNG-chosen goroutine yields or sleeps 0-50us; every result is compared with the sequential baseline taken before the goroutines start; the non-evaluating fingerprint of the shared config is compared before/after every round. Fourth wave, per case: (a) option-set twins - 24 isomorphic configs whose every name, path element, struct tag and reference carries a token unique for (case, instance), so that nothing in the process has parsed/resolved/reflected on them before; 12 option sets (a drawn base over PathSep none/./slash, EscapePath, MaxIdx, EnableNumKeys, StructTag, ValidatorTag, Env of two configs, Resolve of two resolvers, Replace/Append/PrependValues; the base with each of the 9 dimensions flipped alone; 2 more drawn sets); instance j is read FIRST under set j (String/Has/CountField of 12 names incl. bracketed names holding the separator, numeric elements, a purely numeric name, references into Env/resolvers; Child+Unpack; Unpack into 11 single-field struct types built with reflect.StructOf whose tags carry the names, a second tag and validator tags; Unpack(map), FlattenedKeys, merge source), which gives the answer of that reader alone; then every set is run on every instance in a drawn order (both orders of every pair occur) and, on 12 untouched instances, by all goroutines at once - every answer must be the one its option set got alone; (b) 2-4 ordinary Unpack calls into ONE target value with *Config, []*Config, map[string]*Config, **Config fields (zero or pre-filled with configs of the caller's own), drawn from two configs, two Env configs and four merge policies: none of the four configs may change (fingerprint and rendering after every call), then the same with one target per goroutine while the configs are read. Distinct interleavings are counted from the merged stream of goroutine ids at the hook. Non-trivial = a round in which at least two goroutines overlapped at the hook (interleaving differs from serial order); distinct = distinct (config, round interleaving)."
 }
 
 func (check) Assumptions() []string {
@@ -48,6 +48,12 @@ func (check) Assumptions() []string {
 		"the race detector only reports races on executions that happen; interleavings are widened by yields/sleeps at the evaluation hook, not enumerated",
 		"safety of concurrent WRITERS is not claimed by the property and not exercised",
 		"a read-only history is linearizable iff every read equals its sequential result, which is what is compared (no history checker needed)",
+		"a worker can not give every read a fresh process: 'the result running alone' under an option set is taken from an isomorphic twin config whose names nothing in the process has seen before and which that option set reads first; state warmed by the construction of the configs themselves (done under PathSep(\"|\"), MaxIdx(1), which no reader uses) is not separated from a fresh process",
+		"Unpack into a target the caller filled with a handle of the config being read (s.A from an earlier Unpack or Child moved by hand into another field or struct, then unpacked into) is the caller handing a setting in as the TARGET of a merge: outside, not generated. A target that only Unpack itself has filled (the same value passed to Unpack again) is inside: the caller wrote nothing",
+		"a config modified by an Unpack of ANOTHER config, or an Env config modified by a call that does not even use it, counts: the statement's third sentence (every read obtains what it obtains alone) fails for the next read of the modified config, and only listed reads were performed",
+		"a nil *Config receiver is not a configuration with a state (Unpack reports ErrNilConfig, the other readers panic - alone and concurrently alike): class of C07, only monitored here",
+		"which of several failing settings a whole-config Unpack reports, how much of the target was filled before it failed, and the order of GetFields are not determined even for one reader alone (map iteration): failing reads are compared as 'error', GetFields as a set (as in C09)",
+		"configs linked below themselves with SetChild are the product of a write and are not generated",
 	}
 }
 
@@ -469,6 +475,13 @@ func (check) Run(seed int64, tier string, idx int, verbose bool) harness.Result 
 	res.SetAdd("goroutines", strconv.Itoa(goroutines))
 	rounds := 10
 	var hookSeq int64
+	// fourth wave: the same reads under different option sets (process-wide
+	// state keyed by less than all options), Unpack repeated into one target
+	// value (captured *Config fields met again by a later Unpack); generators
+	// of their own so that the draws above and below stay what they were
+	runOptionTwins(res, rand.New(rand.NewSource(harness.Mix(seed, "C11/optionsets", idx))), idx, goroutines)
+	skipFrom, skipTo := runReusedTargets(res, rand.New(rand.NewSource(harness.Mix(seed, "C11/reusedtargets", idx))), goroutines)
+	nilReceiver(res)
 	// cold rounds: the goroutines are the FIRST readers of a freshly built,
 	// identical config (nothing has been evaluated on it, so whatever a read
 	// initialises lazily is initialised under concurrency)
@@ -620,9 +633,13 @@ func (check) Run(seed int64, tier string, idx int, verbose bool) harness.Result 
 		}
 	}
 	raceAfter, log := raceReports()
-	res.Ev("race_reports", int64(raceAfter-raceBefore))
-	if raceAfter > raceBefore {
+	res.Ev("race_reports", int64(raceAfter-raceBefore-(skipTo-skipFrom)))
+	if raceAfter-(skipTo-skipFrom) > raceBefore {
+		// the reports skipFrom+1..skipTo were judged by runReusedTargets
 		keys := dedupeKeys(log, raceBefore)
+		if skipTo > skipFrom && skipFrom >= raceBefore && skipTo-raceBefore <= len(keys) {
+			keys = append(append([]string{}, keys[:skipFrom-raceBefore]...), keys[skipTo-raceBefore:]...)
+		}
 		byInner := map[string][]string{}
 		for _, k := range keys {
 			parts := strings.SplitN(k, "@", 2)
@@ -643,7 +660,7 @@ func (check) Run(seed int64, tier string, idx int, verbose bool) harness.Result 
 		for inner, pairs := range byInner {
 			sort.Strings(pairs)
 			res.SetAdd("race_entry_point_pairs", strings.Join(pairs, ";"))
-			res.Violate("data-race:"+inner, "the race detector reported %d data race(s) during this case (%d goroutines); racing access in %s, reached from the entry point pairs %v; full reports in work/C11/race.%d; config %s", raceAfter-raceBefore, goroutines, inner, pairs, os.Getpid(), desc)
+			res.Violate("data-race:"+inner, "the race detector reported %d data race(s) during this case (%d goroutines); racing access in %s, reached from the entry point pairs %v; full reports in work/C11/race.%d; config %s", raceAfter-raceBefore-(skipTo-skipFrom), goroutines, inner, pairs, os.Getpid(), desc)
 		}
 	}
 	_ = reflect.TypeOf
